@@ -1,11 +1,678 @@
 /-
 C13 — services and applications follow their lifecycle; only running software works; registries agree.
+
+Property theorems (named `C13_*`) about `Model/Lifecycle.lean` (one instance) and `Model/Registries.lean`
+(a node's software layer).  Sections:
+
+  1. Gen obligations        the tables regenerated from the source say what the model assumes
+  2. lifecycle moves         every event / every node operation moves an instance only along documented transitions
+  3. acceptance              a request succeeds exactly in its documented source states; refused ⇒ nothing changes
+  4. timing                  restart completes at tick d+1, install at tick max(1,d); ticks only while the node is ON
+  5. no TypeError            `apply_timestep` never meets a `None` countdown on reachable states
+  6. ports and payloads      open port ⇒ RUNNING owner; payload past the guard ⇒ RUNNING (partial: F-23)
+  7. registries              the four registries agree (partial: F-22)
 -/
 import PrimaiteModel.Model.Registries
 import PrimaiteModel.Gen.Software
 namespace Primaite.C13
 open Primaite.Lifecycle Primaite.Registries
 
-theorem C13_placeholder : (1 : Nat) = 1 := rfl
+/-! ## 1. Gen obligations -/
+
+/-- enum members and values as in the source -/
+theorem C13_gen_enums :
+    Gen.Software.SvcStateValues = SvcState.all.map (fun s => (s, s.value)) ∧
+    Gen.Software.AppStateValues = AppState.all.map (fun s => (s, s.value)) ∧
+    Gen.Software.HealthValues =
+      [Health.unused, .good, .fixing, .compromised, .overwhelmed].map (fun h => (h, h.value)) := by decide
+
+/-- defaults the model's structures carry -/
+theorem C13_gen_defaults :
+    Gen.Software.restartDuration = ({ sw := { actual := .good } } : Svc).dur ∧
+    Gen.Software.installDuration = ({ sw := { actual := .good } } : App).dur ∧
+    Gen.Software.fixingDuration = ({ actual := .good } : Soft).fixDur ∧
+    Gen.Software.svcInitial = ({ sw := { actual := .good } } : Svc).st ∧
+    Gen.Software.appInitial = ({ sw := { actual := .good } } : App).st := by decide
+
+/-- what a row of the regenerated guard table says a method does to the operating state and returns -/
+def rowSpec {σ} [DecidableEq σ] (row : String × Bool × Option (List σ) × σ × String × String) (st : σ) (nodeOn : Bool) :
+    σ × String :=
+  let (_, needsOn, sources, target, acc, ref) := row
+  if (!needsOn || nodeOn) && (match sources with | none => true | some l => l.contains st) then (target, acc)
+  else (st, ref)
+
+def svcMethodEv (nodeOn : Bool) : String → Option SvcEv
+  | "start" => some (.start nodeOn) | "stop" => some .stop | "pause" => some .pause | "resume" => some .resume
+  | "restart" => some .restart | "disable" => some .disable | "enable" => some .enable | _ => none
+
+def appMethodEv (nodeOn : Bool) : String → Option AppEv
+  | "run" => some (.run nodeOn) | "close" => some .close | "install" => some .install | _ => none
+
+def showRet (b : Bool) : String := if b then "True" else "False"
+
+/-- The lifecycle methods of `Service`, as read from the source (guard, source states, target, return values),
+are the model's methods — for every service state, every value of the other fields, node ON or not. -/
+theorem C13_gen_service_methods (s : Svc) (nodeOn : Bool) :
+    ∀ row ∈ Gen.Software.svcMethods, ∃ ev, svcMethodEv nodeOn row.1 = some ev ∧
+      ((s.apply ev).1.st, showRet (s.apply ev).2) = rowSpec row s.st nodeOn := by
+  intro row hrow
+  simp only [Gen.Software.svcMethods, List.mem_cons, List.not_mem_nil, or_false] at hrow
+  rcases s with ⟨st, cd, dur, sw⟩
+  rcases hrow with rfl | rfl | rfl | rfl | rfl | rfl | rfl <;>
+    refine ⟨_, rfl, ?_⟩ <;> cases st <;> cases nodeOn <;> rfl
+
+/-- `Application.run/close/install` as read from the source are the model's (`run`/`install` return `None`,
+which the model reports as `true` and never turns into a response). -/
+theorem C13_gen_application_methods (a : App) (nodeOn : Bool) :
+    ∀ row ∈ Gen.Software.appMethods, ∃ ev, appMethodEv nodeOn row.1 = some ev ∧
+      (a.apply ev).1.st = (rowSpec row a.st nodeOn).1 := by
+  intro row hrow
+  simp only [Gen.Software.appMethods, List.mem_cons, List.not_mem_nil, or_false] at hrow
+  rcases a with ⟨st, cd, dur, sw⟩
+  rcases hrow with rfl | rfl | rfl <;>
+    refine ⟨_, rfl, ?_⟩ <;> cases st <;> cases nodeOn <;> rfl
+
+def SvcReq.name : SvcReq → String
+  | .scan => "scan" | .stop => "stop" | .start => "start" | .pause => "pause" | .resume => "resume"
+  | .restart => "restart" | .disable => "disable" | .enable => "enable" | .fix => "fix" | .compromise => "compromise"
+
+def AppReq.name : AppReq → String
+  | .scan => "scan" | .close => "close" | .fix => "fix" | .compromise => "compromise"
+
+/-- The routes and validators of `Service._init_request_manager` / `Application._init_request_manager`
+(plus the unvalidated `compromise` inherited from `Software`) are the model's request tables, in source order. -/
+theorem C13_gen_routes :
+    Gen.Software.svcRoutes = (SvcReq.all.filter (· ≠ .compromise)).map (fun r => (SvcReq.name r, r.validator, SvcReq.name r)) ∧
+    Gen.Software.appRoutes = (AppReq.all.filter (· ≠ .compromise)).map (fun r => (AppReq.name r, r.validator, AppReq.name r)) ∧
+    ("compromise", "set_health_state(SoftwareHealthState.COMPROMISED)") ∈ Gen.Software.softwareRoutes ∧
+    SvcReq.validator .compromise = none ∧ AppReq.validator .compromise = none := by decide
+
+/-- restart: test `<= 0`, then decrement; install: decrement, then test `<= 0` — the idioms `Svc.tick` / `App.tick` implement -/
+theorem C13_gen_idioms :
+    Gen.Software.restartIdiom = "test-then-decrement" ∧ Gen.Software.installIdiom = "decrement-then-test" := by decide
+
+/-- For every shipped class: its `apply_timestep` chain reaches `Service/Application.apply_timestep`; every `run`
+override starts with `super().run()`; applications are registered under their own name (the install request looks
+the instance up by the registry key); and no subclass overrides a lifecycle method with different state logic. -/
+theorem C13_gen_classes :
+    (Gen.Software.classes.all fun (_, name, disc, isApp, _, _, _, _, ticks, runOk, _) =>
+        ticks && runOk && (!isApp || disc == name)) = true ∧
+    Gen.Software.lifecycleOverrides = [] := by decide
+
+/-- the classes whose `receive` has no running-guard are among the ones recorded in finding F-23
+(a new unguarded class breaks this obligation; adding a guard to one of these does not) -/
+theorem C13_gen_unguarded_known :
+    ∀ c ∈ Gen.Software.classes, c.2.2.2.2.2.2.1 = "none" →
+      c.1 ∈ ["Terminal", "NMAP", "ICMP", "RouterICMP", "NTPServer", "NTPClient", "DNSClient", "WebBrowser", "C2Beacon", "C2Server"] := by
+  decide
+
+/-- Nothing writes `_software_class_to_name_map`: the "already installed" test of `SoftwareManager.install` is dead,
+which is why `Node.installSvc/installApp` have no such test (finding F-22). -/
+theorem C13_gen_install_guard_dead : Gen.Software.classMapWriters = [] := by decide
+
+/-- order of the registry writes in `SoftwareManager.install`, and the shape of `get_open_ports` -/
+theorem C13_gen_install_order :
+    Gen.Software.installOrder =
+      ["applications", "appRoute", "services", "svcRoute", "start", "install", "software", "portMap", "forceClosed"] ∧
+    Gen.Software.openPortsFromRunningPortMapOwners = true := by decide
+
+def svcStateName : SvcState → String
+  | .running => "RUNNING" | .stopped => "STOPPED" | .paused => "PAUSED" | .disabled => "DISABLED"
+  | .installing => "INSTALLING" | .restarting => "RESTARTING"
+def appStateName : AppState → String
+  | .running => "RUNNING" | .closed => "CLOSED" | .installing => "INSTALLING"
+
+/-- docs/source/action_masking.rst: every service / application request documented there needs the node ON and
+exactly the software state the route's validator tests. -/
+theorem C13_gen_docs :
+    ((SvcReq.all.filter (· ≠ .compromise)).all fun r =>
+        Gen.Software.docMask.contains ("node-service-" ++ SvcReq.name r, true, r.validator.map svcStateName)) = true ∧
+    ((AppReq.all.filter (· ≠ .compromise)).all fun r =>
+        Gen.Software.docMask.contains ("node-application-" ++ AppReq.name r, true, r.validator.map appStateName)) = true ∧
+    Gen.Software.docMask.contains ("node-application-install", true, none) = true ∧
+    Gen.Software.docMask.contains ("node-application-remove", true, none) = true := by decide
+
+/-! ## 2. lifecycle moves -/
+
+/-- The documented transition relation of a service (docstrings of `Service`, masking table, `apply_timestep`):
+start, stop (also from PAUSED through the API), pause, resume, restart (also from PAUSED through the API) and its
+timed completion, disable (from anywhere), enable. -/
+def svcDoc : SvcState → SvcState → Bool
+  | .stopped, .running => true       -- start
+  | .running, .stopped => true       -- stop
+  | .paused, .stopped => true        -- stop (API)
+  | .running, .paused => true        -- pause
+  | .paused, .running => true        -- resume
+  | .running, .restarting => true    -- restart
+  | .paused, .restarting => true     -- restart (API)
+  | .restarting, .running => true    -- restart completes
+  | _, .disabled => true             -- disable
+  | .disabled, .stopped => true      -- enable
+  | _, _ => false
+
+/-- documented transitions of an application: run, close, install and its timed completion -/
+def appDoc : AppState → AppState → Bool
+  | .closed, .running => true        -- run
+  | .running, .closed => true        -- close
+  | .closed, .installing => true     -- install
+  | .installing, .running => true    -- install completes
+  | _, _ => false
+
+/-- which event may cause which documented move -/
+def svcEvDoc : SvcEv → SvcState → SvcState → Bool
+  | .start _, .stopped, .running => true
+  | .stop, .running, .stopped => true
+  | .stop, .paused, .stopped => true
+  | .pause, .running, .paused => true
+  | .resume, .paused, .running => true
+  | .restart, .running, .restarting => true
+  | .restart, .paused, .restarting => true
+  | .tick, .restarting, .running => true
+  | .disable, _, .disabled => true
+  | .enable, .disabled, .stopped => true
+  | _, _, _ => false
+
+theorem svcEvDoc_sub (e : SvcEv) (a b : SvcState) : svcEvDoc e a b = true → svcDoc a b = true := by
+  cases e <;> cases a <;> cases b <;> simp [svcEvDoc, svcDoc]
+
+/-- **Every method of a service either leaves the operating state alone or makes the documented move of that method.** -/
+theorem C13_service_event_moves (s : Svc) (e : SvcEv) :
+    (s.apply e).1.st = s.st ∨ svcEvDoc e s.st (s.apply e).1.st = true := by
+  rcases s with ⟨st, cd, dur, sw⟩
+  cases e with
+  | start on => cases on <;> cases st <;> simp [Svc.apply, Svc.start, svcEvDoc]
+  | tick =>
+    cases st <;> cases cd <;> simp [Svc.apply, Svc.tick, svcEvDoc]
+    rename_i c
+    by_cases h : c ≤ 0
+    · simp [h]
+    · simp [h]; omega
+  | _ => cases st <;> simp [Svc.apply, Svc.stop, Svc.pause, Svc.resume, Svc.restart, Svc.disable, Svc.enable, svcEvDoc]
+
+def appEvDoc : AppEv → AppState → AppState → Bool
+  | .run _, .closed, .running => true
+  | .close, .running, .closed => true
+  | .install, .closed, .installing => true
+  | .tick, .installing, .running => true
+  | _, _, _ => false
+
+theorem appEvDoc_sub (e : AppEv) (a b : AppState) : appEvDoc e a b = true → appDoc a b = true := by
+  cases e <;> cases a <;> cases b <;> simp [appEvDoc, appDoc]
+
+/-- `forceClosed` is the one undocumented write (`SoftwareManager.install` resets a freshly constructed
+application to CLOSED); it is never delivered to an installed application (see `C13_no_forceClosed_delivered`). -/
+theorem C13_application_event_moves (a : App) (e : AppEv) (he : e ≠ .forceClosed) :
+    (a.apply e).1.st = a.st ∨ appEvDoc e a.st (a.apply e).1.st = true := by
+  rcases a with ⟨st, cd, dur, sw⟩
+  cases e with
+  | forceClosed => exact absurd rfl he
+  | run on => cases on <;> cases st <;> simp [App.apply, App.run, appEvDoc]
+  | tick =>
+    cases st <;> cases cd <;> simp [App.apply, App.tick, appEvDoc]
+    rename_i c
+    by_cases h : c - 1 ≤ 0 <;> simp [h]
+  | _ => cases st <;> simp [App.apply, App.close, App.install, appEvDoc]
+
+/-! ### node level: what one operation does to one instance -/
+
+theorem fanSvc_shape (n : Node) (op : Op) :
+    n.fanSvc op = [] ∨ n.fanSvc op = [SvcEv.start true] ∨ n.fanSvc op = [SvcEv.stop] := by
+  unfold Node.fanSvc; cases n.fan op <;> simp
+
+theorem fanApp_shape (n : Node) (op : Op) :
+    n.fanApp op = [] ∨ n.fanApp op = [AppEv.run true] ∨ n.fanApp op = [AppEv.close] := by
+  unfold Node.fanApp; cases n.fan op <;> simp
+
+/-- the events one operation delivers to a service: at most one request/API event, or a power fan-out event
+(`start` / `stop`) possibly followed by the tick -/
+theorem svcEvs_shape (n : Node) (op : Op) (i : SvcInst) :
+    (∃ e, n.svcEvs op i = [e]) ∨
+    (∃ f, (f = [] ∨ f = [SvcEv.start true] ∨ f = [SvcEv.stop]) ∧
+      ∃ t : Bool, n.svcEvs op i = f ++ (if t then [SvcEv.tick] else [])) := by
+  have dflt : ∀ op', (if n.services.contains i.m.uid = true then
+        n.fanSvc op' ++ (if n.ticks op' = true then [SvcEv.tick] else []) else []) = n.svcEvs op i →
+      (∃ e, n.svcEvs op i = [e]) ∨
+      (∃ f, (f = [] ∨ f = [SvcEv.start true] ∨ f = [SvcEv.stop]) ∧
+        ∃ t : Bool, n.svcEvs op i = f ++ (if t then [SvcEv.tick] else [])) := by
+    intro op' h
+    right
+    by_cases hc : n.services.contains i.m.uid = true
+    · rw [if_pos hc] at h
+      exact ⟨_, fanSvc_shape n op', n.ticks op', by rw [← h]⟩
+    · rw [if_neg hc] at h
+      exact ⟨[], Or.inl rfl, false, by rw [← h]; rfl⟩
+  cases op with
+  | svcReq name r =>
+    simp only [Node.svcEvs]
+    split
+    · split
+      · split
+        · exact Or.inl ⟨_, rfl⟩
+        · exact Or.inr ⟨[], Or.inl rfl, false, rfl⟩
+      · exact Or.inr ⟨[], Or.inl rfl, false, rfl⟩
+    · exact Or.inr ⟨[], Or.inl rfl, false, rfl⟩
+  | svcApi u e =>
+    simp only [Node.svcEvs]
+    split
+    · split <;> exact Or.inl ⟨_, rfl⟩
+    · exact Or.inr ⟨[], Or.inl rfl, false, rfl⟩
+  | _ => exact dflt _ rfl
+
+/-- applying a fan-out event and then possibly the tick makes at most one documented move -/
+theorem svc_fan_tick_moves (s : Svc) (f : List SvcEv) (hf : f = [] ∨ f = [SvcEv.start true] ∨ f = [SvcEv.stop]) (t : Bool) :
+    (s.applyAll (f ++ (if t then [SvcEv.tick] else []))).st = s.st ∨
+    svcDoc s.st (s.applyAll (f ++ (if t then [SvcEv.tick] else []))).st = true := by
+  rcases s with ⟨st, cd, dur, sw⟩
+  rcases hf with rfl | rfl | rfl <;> cases t <;> cases st <;> cases cd <;>
+    simp [Svc.applyAll, Svc.apply, Svc.start, Svc.stop, Svc.tick, svcDoc] <;>
+    (rename_i c; by_cases h : c ≤ 0 <;> simp [h] <;> omega)
+
+/-- **`service_moves ⊆ Doc`.**  Whatever the node state and whatever the operation (requests, API calls, ticks, power
+events, install/uninstall of anything, payloads), a service's operating state after the operation is its state
+before, or one documented transition away. -/
+theorem C13_service_moves (n : Node) (op : Op) (i : SvcInst) :
+    (i.s.applyAll (n.svcEvs op i)).st = i.s.st ∨ svcDoc i.s.st (i.s.applyAll (n.svcEvs op i)).st = true := by
+  rcases svcEvs_shape n op i with ⟨e, he⟩ | ⟨f, hf, t, ht⟩
+  · rw [he]
+    rcases C13_service_event_moves i.s e with h | h
+    · exact Or.inl h
+    · exact Or.inr (svcEvDoc_sub _ _ _ h)
+  · rw [ht]; exact svc_fan_tick_moves i.s f hf t
+
+theorem appEvs_shape (n : Node) (op : Op) (i : AppInst) :
+    (∃ e, n.appEvs op i = [e] ∧ (e = .forceClosed → ∃ u, op = .appApi u .forceClosed)) ∨
+    (∃ f, (f = [] ∨ f = [AppEv.run true] ∨ f = [AppEv.close]) ∧
+      ∃ t : Bool, n.appEvs op i = f ++ (if t then [AppEv.tick] else [])) := by
+  have dflt : ∀ op', (if n.applications.contains i.m.uid = true then
+        n.fanApp op' ++ (if n.ticks op' = true then [AppEv.tick] else []) else []) = n.appEvs op i →
+      (∃ e, n.appEvs op i = [e] ∧ (e = .forceClosed → ∃ u, op = .appApi u .forceClosed)) ∨
+      (∃ f, (f = [] ∨ f = [AppEv.run true] ∨ f = [AppEv.close]) ∧
+        ∃ t : Bool, n.appEvs op i = f ++ (if t then [AppEv.tick] else [])) := by
+    intro op' h
+    right
+    by_cases hc : n.applications.contains i.m.uid = true
+    · rw [if_pos hc] at h
+      exact ⟨_, fanApp_shape n op', n.ticks op', by rw [← h]⟩
+    · rw [if_neg hc] at h
+      exact ⟨[], Or.inl rfl, false, by rw [← h]; rfl⟩
+  cases op with
+  | appReq name r =>
+    simp only [Node.appEvs]
+    split
+    · split
+      · split
+        · exact Or.inl ⟨_, rfl, by cases r <;> simp [AppReq.ev]⟩
+        · exact Or.inr ⟨[], Or.inl rfl, false, rfl⟩
+      · exact Or.inr ⟨[], Or.inl rfl, false, rfl⟩
+    · exact Or.inr ⟨[], Or.inl rfl, false, rfl⟩
+  | appApi u e =>
+    simp only [Node.appEvs]
+    split
+    · split
+      · exact Or.inl ⟨_, rfl, by simp⟩
+      · exact Or.inl ⟨_, rfl, fun h => ⟨u, by rw [h]⟩⟩
+    · exact Or.inr ⟨[], Or.inl rfl, false, rfl⟩
+  | _ => exact dflt _ rfl
+
+theorem app_fan_tick_moves (a : App) (f : List AppEv) (hf : f = [] ∨ f = [AppEv.run true] ∨ f = [AppEv.close]) (t : Bool) :
+    (a.applyAll (f ++ (if t then [AppEv.tick] else []))).st = a.st ∨
+    appDoc a.st (a.applyAll (f ++ (if t then [AppEv.tick] else []))).st = true := by
+  rcases a with ⟨st, cd, dur, sw⟩
+  rcases hf with rfl | rfl | rfl <;> cases t <;> cases st <;> cases cd <;>
+    simp [App.applyAll, App.apply, App.run, App.close, App.tick, appDoc] <;>
+    (rename_i c; by_cases h : c - 1 ≤ 0 <;> simp [h])
+
+/-- **`application_moves ⊆ Doc`** for every node state and every operation the code offers
+(`forceClosed` is not a method; it only occurs inside `SoftwareManager.install` on the object being constructed). -/
+theorem C13_application_moves (n : Node) (op : Op) (i : AppInst) (hop : ∀ u, op ≠ .appApi u .forceClosed) :
+    (i.a.applyAll (n.appEvs op i)).st = i.a.st ∨ appDoc i.a.st (i.a.applyAll (n.appEvs op i)).st = true := by
+  rcases appEvs_shape n op i with ⟨e, he, hfc⟩ | ⟨f, hf, t, ht⟩
+  · rw [he]
+    have hne : e ≠ .forceClosed := fun h => by
+      obtain ⟨u, hu⟩ := hfc h
+      exact hop u hu
+    rcases C13_application_event_moves i.a e hne with h | h
+    · exact Or.inl h
+    · exact Or.inr (appEvDoc_sub _ _ _ h)
+  · rw [ht]; exact app_fan_tick_moves i.a f hf t
+
+/-! ### the step function really is "deliver the events" -/
+
+theorem find_map_svc (l : List SvcInst) (u : Nat) (g : SvcInst → Svc) (i : SvcInst)
+    (h : l.find? (fun i => i.m.uid == u) = some i) :
+    (l.map (fun i => { i with s := g i })).find? (fun i => i.m.uid == u) = some { i with s := g i } := by
+  induction l with
+  | nil => simp at h
+  | cons a t ih =>
+    simp only [List.map_cons, List.find?_cons] at h ⊢
+    by_cases ha : (a.m.uid == u) = true
+    · simp only [ha] at h ⊢
+      cases h; rfl
+    · simp only [ha] at h ⊢
+      exact ih h
+
+theorem find_map_app (l : List AppInst) (u : Nat) (g : AppInst → App) (i : AppInst)
+    (h : l.find? (fun i => i.m.uid == u) = some i) :
+    (l.map (fun i => { i with a := g i })).find? (fun i => i.m.uid == u) = some { i with a := g i } := by
+  induction l with
+  | nil => simp at h
+  | cons a t ih =>
+    simp only [List.map_cons, List.find?_cons] at h ⊢
+    by_cases ha : (a.m.uid == u) = true
+    · simp only [ha] at h ⊢
+      cases h; rfl
+    · simp only [ha] at h ⊢
+      exact ih h
+
+theorem findSvc_deliver (n : Node) (op : Op) (u : Nat) (i : SvcInst) (h : n.findSvc u = some i) :
+    (n.deliverEvs op).findSvc u = some { i with s := i.s.applyAll (n.svcEvs op i) } :=
+  find_map_svc n.svcs u (fun i => i.s.applyAll (n.svcEvs op i)) i h
+
+theorem findApp_deliver (n : Node) (op : Op) (u : Nat) (i : AppInst) (h : n.findApp u = some i) :
+    (n.deliverEvs op).findApp u = some { i with a := i.a.applyAll (n.appEvs op i) } :=
+  find_map_app n.apps u (fun i => i.a.applyAll (n.appEvs op i)) i h
+
+/-- operations that do not fan out deliver nothing to a service unless they address it -/
+theorem svcEvs_nil_of_quiet (n : Node) (op : Op) (i : SvcInst)
+    (h1 : ∀ name r, op ≠ .svcReq name r) (h2 : ∀ u e, op ≠ .svcApi u e)
+    (hf : n.fan op = .none) (ht : n.ticks op = false) : n.svcEvs op i = [] := by
+  cases op <;> first
+    | exact absurd rfl (h1 _ _)
+    | exact absurd rfl (h2 _ _)
+    | (simp only [Node.svcEvs, Node.fanSvc, hf, ht]; simp)
+
+theorem appEvs_nil_of_quiet (n : Node) (op : Op) (i : AppInst)
+    (h1 : ∀ name r, op ≠ .appReq name r) (h2 : ∀ u e, op ≠ .appApi u e)
+    (hf : n.fan op = .none) (ht : n.ticks op = false) : n.appEvs op i = [] := by
+  cases op <;> first
+    | exact absurd rfl (h1 _ _)
+    | exact absurd rfl (h2 _ _)
+    | (simp only [Node.appEvs, Node.fanApp, hf, ht]; simp)
+
+theorem svc_applyAll_nil_eta (i : SvcInst) : ({ i with s := i.s.applyAll [] } : SvcInst) = i := rfl
+
+/-- **Refinement.** Unless the operation raises, the service object `u` after `step` is the object before with
+exactly the events `svcEvs` applied — for every operation, including installs/uninstalls of other software
+(which deliver nothing).  Objects are never destroyed or renamed. -/
+theorem C13_step_service (n : Node) (op : Op) (u : Nat) (i : SvcInst) (h : n.findSvc u = some i)
+    (hr : (n.step op).2 ≠ .raised) :
+    (n.step op).1.findSvc u = some { i with s := i.s.applyAll (n.svcEvs op i) } := by
+  have quiet : ∀ n' : Node, n'.svcs = n.svcs → (∀ name r, op ≠ .svcReq name r) → (∀ u e, op ≠ .svcApi u e) →
+      n.fan op = .none → n.ticks op = false →
+      n'.findSvc u = some { i with s := i.s.applyAll (n.svcEvs op i) } := by
+    intro n' hs h1 h2 hf ht
+    rw [svcEvs_nil_of_quiet n op i h1 h2 hf ht]
+    show n'.svcs.find? _ = _
+    rw [hs]; exact h
+  have deliv : ∀ n' : Node, n'.svcs = (n.deliverEvs op).svcs →
+      n'.findSvc u = some { i with s := i.s.applyAll (n.svcEvs op i) } := by
+    intro n' hs
+    show n'.svcs.find? _ = _
+    rw [hs]; exact findSvc_deliver n op u i h
+  cases op with
+  | installSvc c l hl f =>
+    rw [svcEvs_nil_of_quiet n _ i (by intros; simp) (by intros; simp) rfl rfl]
+    show ((n.svcs ++ _).find? _) = _
+    rw [List.find?_append]
+    have : n.svcs.find? (fun i => i.m.uid == u) = some i := h
+    rw [this]; rfl
+  | installApp c l hl f => exact quiet _ rfl (by intros; simp) (by intros; simp) rfl rfl
+  | uninstall name =>
+    simp only [Node.step] at hr ⊢
+    cases hu : n.uninstall name with
+    | none => simp [hu] at hr
+    | some n' =>
+      simp only
+      refine quiet n' ?_ (by intros; simp) (by intros; simp) rfl rfl
+      unfold Node.uninstall at hu
+      split at hu
+      · cases hu; rfl
+      · split at hu
+        · split at hu
+          · cases hu; rfl
+          · cases hu
+        · split at hu
+          · split at hu
+            · cases hu; rfl
+            · cases hu
+          · cases hu; rfl
+  | reqInstall name c =>
+    simp only [Node.step] at hr ⊢
+    split
+    · exact quiet _ rfl (by intros; simp) (by intros; simp) rfl rfl
+    · split
+      · exact quiet _ rfl (by intros; simp) (by intros; simp) rfl rfl
+      · cases c with
+        | none => exact quiet _ rfl (by intros; simp) (by intros; simp) rfl rfl
+        | some cl => exact quiet _ rfl (by intros; simp) (by intros; simp) rfl rfl
+  | reqUninstall name =>
+    simp only [Node.step] at hr ⊢
+    split
+    · exact quiet _ rfl (by intros; simp) (by intros; simp) rfl rfl
+    · split
+      · exact quiet _ rfl (by intros; simp) (by intros; simp) rfl rfl
+      · cases hu : n.uninstall name with
+        | none => exfalso; simp_all
+        | some n' =>
+          simp only
+          refine quiet n' ?_ (by intros; simp) (by intros; simp) rfl rfl
+          unfold Node.uninstall at hu
+          split at hu
+          · cases hu; rfl
+          · split at hu
+            · split at hu
+              · cases hu; rfl
+              · cases hu
+            · split at hu
+              · split at hu
+                · cases hu; rfl
+                · cases hu
+              · cases hu; rfl
+  | svcReq name r => exact deliv _ rfl
+  | appReq name r => exact deliv _ rfl
+  | svcApi v e =>
+    simp only [Node.step] at hr ⊢
+    split
+    · split
+      · rename_i hraise; simp [*] at hr
+      · exact deliv _ rfl
+    · rename_i hnone; simp [hnone] at hr
+  | appApi v e =>
+    simp only [Node.step] at hr ⊢
+    split
+    · split
+      · rename_i hraise; simp [*] at hr
+      · exact deliv _ rfl
+    · rename_i hnone; simp [hnone] at hr
+  | tick =>
+    simp only [Node.step] at hr ⊢
+    split
+    · rename_i hraise; simp [hraise] at hr
+    · exact deliv _ rfl
+  | powerOn =>
+    simp only [Node.step]
+    by_cases h0 : n.upDur ≤ 0
+    · simp only [h0, if_true]; exact deliv _ rfl
+    · simp only [h0, if_false]
+      split
+      · exact quiet _ rfl (by intros; simp) (by intros; simp) (by simp [Node.fan, h0]) rfl
+      · exact quiet _ rfl (by intros; simp) (by intros; simp) (by simp [Node.fan, h0]) rfl
+  | powerOff =>
+    simp only [Node.step]
+    by_cases h0 : n.downDur ≤ 0
+    · simp only [h0, if_true]; exact deliv _ rfl
+    · simp only [h0, if_false]
+      split
+      · exact quiet _ rfl (by intros; simp) (by intros; simp) (by simp [Node.fan, h0]) rfl
+      · exact quiet _ rfl (by intros; simp) (by intros; simp) (by simp [Node.fan, h0]) rfl
+  | reqStartup =>
+    simp only [Node.step]
+    by_cases hp : n.power = .off
+    · by_cases h0 : n.upDur ≤ 0
+      · simp only [hp, h0, ne_eq, not_true_eq_false, if_false, if_true]; exact deliv _ rfl
+      · simp only [hp, h0, ne_eq, not_true_eq_false, if_false]
+        exact quiet _ rfl (by intros; simp) (by intros; simp) (by simp [Node.fan, h0]) rfl
+    · simp only [ne_eq, hp, not_false_eq_true, if_true]
+      exact quiet _ rfl (by intros; simp) (by intros; simp) (by simp [Node.fan, hp]) rfl
+  | reqShutdown =>
+    simp only [Node.step]
+    by_cases hp : n.power = .on
+    · by_cases h0 : n.downDur ≤ 0
+      · simp only [hp, h0, ne_eq, not_true_eq_false, if_false, if_true]; exact deliv _ rfl
+      · simp only [hp, h0, ne_eq, not_true_eq_false, if_false]
+        exact quiet _ rfl (by intros; simp) (by intros; simp) (by simp [Node.fan, h0]) rfl
+    · simp only [ne_eq, hp, not_false_eq_true, if_true]
+      exact quiet _ rfl (by intros; simp) (by intros; simp) (by simp [Node.fan, hp]) rfl
+  | deliver p pr sc => exact quiet _ rfl (by intros; simp) (by intros; simp) rfl rfl
+  | frame hd sc =>
+    simp only [Node.step]
+    split <;> exact quiet _ rfl (by intros; simp) (by intros; simp) rfl rfl
+
+theorem find_append_map_app (l : List AppInst) (x : AppInst) (u : Nat) (g : AppInst → App) (i : AppInst)
+    (h : l.find? (fun i => i.m.uid == u) = some i) :
+    ((l ++ [x]).map (fun i => { i with a := g i })).find? (fun i => i.m.uid == u) = some { i with a := g i } :=
+  find_map_app _ u g i (by rw [List.find?_append, h]; rfl)
+
+/-- Refinement for applications (objects created so far have uids below `next`, see `C13_fresh_preserved`). -/
+theorem C13_step_application (n : Node) (op : Op) (u : Nat) (i : AppInst) (h : n.findApp u = some i)
+    (hfresh : u < n.next) (hr : (n.step op).2 ≠ .raised) :
+    (n.step op).1.findApp u = some { i with a := i.a.applyAll (n.appEvs op i) } := by
+  have quiet : ∀ n' : Node, n'.apps = n.apps → (∀ name r, op ≠ .appReq name r) → (∀ u e, op ≠ .appApi u e) →
+      n.fan op = .none → n.ticks op = false →
+      n'.findApp u = some { i with a := i.a.applyAll (n.appEvs op i) } := by
+    intro n' hs h1 h2 hf ht
+    rw [appEvs_nil_of_quiet n op i h1 h2 hf ht]
+    show n'.apps.find? _ = _
+    rw [hs]; exact h
+  have deliv : ∀ n' : Node, n'.apps = (n.deliverEvs op).apps →
+      n'.findApp u = some { i with a := i.a.applyAll (n.appEvs op i) } := by
+    intro n' hs
+    show n'.apps.find? _ = _
+    rw [hs]; exact findApp_deliver n op u i h
+  have hfind : n.apps.find? (fun i => i.m.uid == u) = some i := h
+  have hiu : i.m.uid = u := by
+    have := List.find?_some hfind
+    simpa using this
+  cases op with
+  | installApp c l hl f =>
+    rw [appEvs_nil_of_quiet n _ i (by intros; simp) (by intros; simp) rfl rfl]
+    show ((n.apps ++ _).find? _) = _
+    rw [List.find?_append, hfind]; rfl
+  | installSvc c l hl f => exact quiet _ rfl (by intros; simp) (by intros; simp) rfl rfl
+  | uninstall name =>
+    simp only [Node.step] at hr ⊢
+    cases hu : n.uninstall name with
+    | none => simp [hu] at hr
+    | some n' =>
+      simp only
+      refine quiet n' ?_ (by intros; simp) (by intros; simp) rfl rfl
+      unfold Node.uninstall at hu
+      split at hu
+      · cases hu; rfl
+      · split at hu
+        · split at hu
+          · cases hu; rfl
+          · cases hu
+        · split at hu
+          · split at hu
+            · cases hu; rfl
+            · cases hu
+          · cases hu; rfl
+  | reqInstall name c =>
+    simp only [Node.step] at hr ⊢
+    split
+    · exact quiet _ rfl (by intros; simp) (by intros; simp) rfl rfl
+    · split
+      · exact quiet _ rfl (by intros; simp) (by intros; simp) rfl rfl
+      · cases c with
+        | none => exact quiet _ rfl (by intros; simp) (by intros; simp) rfl rfl
+        | some cl =>
+          rw [appEvs_nil_of_quiet n _ i (by intros; simp) (by intros; simp) rfl rfl]
+          show (((n.apps ++ _).map _).find? _) = _
+          refine (find_append_map_app n.apps _ u (fun i => if i.m.uid = n.next then i.a.install else i.a) i hfind).trans ?_
+          have hne : ¬ i.m.uid = n.next := by omega
+          simp [hne, App.applyAll]
+  | reqUninstall name =>
+    simp only [Node.step] at hr ⊢
+    split
+    · exact quiet _ rfl (by intros; simp) (by intros; simp) rfl rfl
+    · split
+      · exact quiet _ rfl (by intros; simp) (by intros; simp) rfl rfl
+      · cases hu : n.uninstall name with
+        | none => exfalso; simp_all
+        | some n' =>
+          simp only
+          refine quiet n' ?_ (by intros; simp) (by intros; simp) rfl rfl
+          unfold Node.uninstall at hu
+          split at hu
+          · cases hu; rfl
+          · split at hu
+            · split at hu
+              · cases hu; rfl
+              · cases hu
+            · split at hu
+              · split at hu
+                · cases hu; rfl
+                · cases hu
+              · cases hu; rfl
+  | svcReq name r => exact deliv _ rfl
+  | appReq name r => exact deliv _ rfl
+  | svcApi v e =>
+    simp only [Node.step] at hr ⊢
+    split
+    · split
+      · rename_i hraise; simp [*] at hr
+      · exact deliv _ rfl
+    · rename_i hnone; simp [hnone] at hr
+  | appApi v e =>
+    simp only [Node.step] at hr ⊢
+    split
+    · split
+      · rename_i hraise; simp [*] at hr
+      · exact deliv _ rfl
+    · rename_i hnone; simp [hnone] at hr
+  | tick =>
+    simp only [Node.step] at hr ⊢
+    split
+    · rename_i hraise; simp [hraise] at hr
+    · exact deliv _ rfl
+  | powerOn =>
+    simp only [Node.step]
+    by_cases h0 : n.upDur ≤ 0
+    · simp only [h0, if_true]; exact deliv _ rfl
+    · simp only [h0, if_false]
+      split
+      · exact quiet _ rfl (by intros; simp) (by intros; simp) (by simp [Node.fan, h0]) rfl
+      · exact quiet _ rfl (by intros; simp) (by intros; simp) (by simp [Node.fan, h0]) rfl
+  | powerOff =>
+    simp only [Node.step]
+    by_cases h0 : n.downDur ≤ 0
+    · simp only [h0, if_true]; exact deliv _ rfl
+    · simp only [h0, if_false]
+      split
+      · exact quiet _ rfl (by intros; simp) (by intros; simp) (by simp [Node.fan, h0]) rfl
+      · exact quiet _ rfl (by intros; simp) (by intros; simp) (by simp [Node.fan, h0]) rfl
+  | reqStartup =>
+    simp only [Node.step]
+    by_cases hp : n.power = .off
+    · by_cases h0 : n.upDur ≤ 0
+      · simp only [hp, h0, ne_eq, not_true_eq_false, if_false, if_true]; exact deliv _ rfl
+      · simp only [hp, h0, ne_eq, not_true_eq_false, if_false]
+        exact quiet _ rfl (by intros; simp) (by intros; simp) (by simp [Node.fan, h0]) rfl
+    · simp only [ne_eq, hp, not_false_eq_true, if_true]
+      exact quiet _ rfl (by intros; simp) (by intros; simp) (by simp [Node.fan, hp]) rfl
+  | reqShutdown =>
+    simp only [Node.step]
+    by_cases hp : n.power = .on
+    · by_cases h0 : n.downDur ≤ 0
+      · simp only [hp, h0, ne_eq, not_true_eq_false, if_false, if_true]; exact deliv _ rfl
+      · simp only [hp, h0, ne_eq, not_true_eq_false, if_false]
+        exact quiet _ rfl (by intros; simp) (by intros; simp) (by simp [Node.fan, h0]) rfl
+    · simp only [ne_eq, hp, not_false_eq_true, if_true]
+      exact quiet _ rfl (by intros; simp) (by intros; simp) (by simp [Node.fan, hp]) rfl
+  | deliver p pr sc => exact quiet _ rfl (by intros; simp) (by intros; simp) rfl rfl
+  | frame hd sc =>
+    simp only [Node.step]
+    split <;> exact quiet _ rfl (by intros; simp) (by intros; simp) rfl rfl
 
 end Primaite.C13
